@@ -34,7 +34,11 @@ Definition vals_eqb (a b : iout) : bool :=
 Definition out_eqb (a b : iout) : bool :=
   vals_eqb a b &&
   match a, b with
-  | IRows d1 r1, IRows d2 _ => match d1, d2 with DInf, _ | _, DInf => true | _, _ => dty_eqb d1 d2 end
+  | IRows d1 r1, IRows d2 _ =>
+      (* an empty coordinate array is replaced by an intp one in the constructor: no dtype to compare *)
+      if forallb (fun r => match r with [] => true | _ => false end) r1 && negb (match r1 with [] => true | _ => false end)
+      then true
+      else match d1, d2 with DInf, _ | _, DInf => true | _, _ => dty_eqb d1 d2 end
   | _, _ => true
   end.
 Definition is_value_error (a : iout) : bool :=
@@ -52,7 +56,7 @@ Inductive opcase :=
 | CTri (lower : bool) (nr : Z) (r c : list Z) (k : Z)
 | CKron (l : list (list Z * Z * list Z))
 | CPad (l : list (list Z * Z))
-| CStack
+| CStack (axis0 : bool)
 | CCtor (ti : ity) (mshape : Z) (c : list Z)
 | CFromCoo (idx : option ity) (rows cols : Z) (lin : list Z)
 | CGcxsJoin (ptrs : list (list Z * Z))
@@ -84,7 +88,11 @@ Definition mout (d : dty) (c : opcase) : iout :=
       match (if lower then m_tril d r x k else m_triu d r x k) with Ok m => IMask m | Raise e => IExc e end
   | CKron l => many_rows (mapM (fun p => let '(a, bs, b) := p in m_kron d a bs b) l)
   | CPad l => many_rows (mapM (fun p => m_pad d (fst p) (snd p)) l)
-  | CStack => match m_stack_dtype d with Ok p => IRows p [] | Raise e => IExc e end
+  | CStack axis0 =>
+      match m_stack d axis0 with
+      | Ok p => IRows p [[match p with DFloat => 0 | _ => 1 end]]
+      | Raise e => IExc e
+      end
   | CCtor ti mshape x => one_row (m_ctor (Some (DInt ti)) mshape (mkT d x))
   | CFromCoo idx rows cols lin =>
       match m_from_coo (option_map DInt idx) d rows cols lin with
@@ -96,17 +104,11 @@ Definition mout (d : dty) (c : opcase) : iout :=
   end.
 
 (* the proved domain and, outside it, the number of the failed clause:
-   1 D6_unsigned_negative_step   2 step_not_representable
-   3 D6_unsigned_negative_k      4 k_not_representable      5 triu_k_add_wraps
-   6 uint64_promotes_to_float    7 gcxs_rows_exceed_indptr_dtype *)
+   6 uint64_promotes_to_float    7 gcxs_rows_exceed_indptr_dtype
+   (1-5, the D6 family of getitem / triu / tril, were repaired by 0a2ad47 and 972d3f2) *)
 Definition failed_clause (t : ity) (c : opcase) : Z :=
   match c with
-  | CGetitem _ _ _ step _ =>
-      if getitem_clause t step then 0 else if negb (sg t) && (step <? 0) then 1 else 2
-  | CTri _ nr _ _ k =>
-      if triu_clause t nr k then 0
-      else if fits (DInt t) k then 5 else if negb (sg t) && (k <? 0) then 3 else 4
-  | CKron _ | CPad _ | CStack => if not_u64 t then 0 else 6
+  | CKron _ | CPad _ | CStack _ => if not_u64 t then 0 else 6
   | CUncompress p => if uncompress_clause t p then 0 else 7
   | _ => 0
   end.
@@ -151,9 +153,11 @@ Definition tag_op (c : op_case) : Z :=
   let ctor := match oc with
     | CConcat _ _ => 1 | CFlip _ _ => 2 | CRoll _ _ _ => 3 | CRollT _ => 4 | CGetitem _ _ _ _ _ => 5
     | CReshape _ _ => 6 | CReduce _ _ => 7 | CTri _ _ _ _ _ => 8 | CKron _ => 9 | CPad _ => 10
-    | CStack => 11 | CCtor _ _ _ => 12 | CFromCoo _ _ _ _ => 13 | CGcxsJoin _ => 14 | CUncompress _ => 15 end in
+    | CStack _ => 11 | CCtor _ _ _ => 12 | CFromCoo _ _ _ _ => 13 | CGcxsJoin _ => 14 | CUncompress _ => 15 end in
   let mw := mout (DInt t) oc in
   100 * ctor + (if negb (failed_clause t oc =? 0) then 2 else if is_value_error mw then 1 else 0).
+
+Definition judge_op_tagged (c : op_case) : Z := 1000 * tag_op c + judge_op c.
 
 (* ------------------------------------------------------------------ MachInt's rules against NumPy *)
 Inductive primcase :=
